@@ -2,8 +2,7 @@
   OVMB model, proofs: ingredients of the writer round trip (C06).
 
   * `WF F`: `WFFile F` as propositions.
-  * `writerValMode_ok`: the writer's fixed / variable valence selection meets the TOPO reader's side conditions,
-    provided `valence * count` fits the reader's 32-bit product (`ModeFits`).
+  * `writerValMode_ok`: the writer's fixed / variable valence selection meets the TOPO reader's side conditions.
   * `growStor_blank_*`: `resize_*props` on storages that hold one default per entity.
   * `pc_*`: `read_chunk`'s type switch on the writer's chunks.
   * `mkS`: the reader state between the writer's chunks ("state after k chunks", explicit).
@@ -95,15 +94,10 @@ theorem suitable_encOk (n : Nat) : encOk (suitableIntEncoding n) = true := by
   · decide
   · split <;> decide
 
-/-- the fixed valence the writer's mode selection uses (0: variable) times the count fits the reader's 32-bit
-    product (`header.valence * header.span.count` is computed in `uint32_t`) -/
-def ModeFits (ls : List (List Nat)) : Prop := (writerValMode (ls.map List.length)).1 * ls.length < 2 ^ 32
-
 /-- the writer's valence mode satisfies the side conditions of the TOPO chunk reader -/
-theorem writerValMode_ok (ls : List (List Nat)) (_hne : ls ≠ []) (hlen : ∀ l ∈ ls, 1 ≤ l.length ∧ l.length < 2 ^ 32)
-    (hfit : ModeFits ls) :
+theorem writerValMode_ok (ls : List (List Nat)) (_hne : ls ≠ []) (hlen : ∀ l ∈ ls, 1 ≤ l.length ∧ l.length < 2 ^ 32) :
     let m := writerValMode (ls.map List.length)
-    (m.1 ≠ 0 ∧ m.2 = intEncodingNone ∧ m.1 < 256 ∧ (∀ l ∈ ls, l.length = m.1) ∧ m.1 * ls.length < 2 ^ 32)
+    (m.1 ≠ 0 ∧ m.2 = intEncodingNone ∧ m.1 < 256 ∧ (∀ l ∈ ls, l.length = m.1))
     ∨ (m.1 = 0 ∧ encOk m.2 = true ∧ ∀ l ∈ ls, l.length < 256 ^ elemSizeInt m.2) := by
   intro m
   have hm : m = writerValMode (ls.map List.length) := rfl
@@ -116,9 +110,8 @@ theorem writerValMode_ok (ls : List (List Nat)) (_hne : ls ≠ []) (hlen : ∀ l
     left
     have h1 : 1 ≤ listMin (ls.map List.length) := listMin_ge (by omega) (by
       intro x hx; obtain ⟨l, hl, rfl⟩ := List.mem_map.mp hx; exact (hlen l hl).1)
-    have hfit' : m.1 * ls.length < 2 ^ 32 := hfit
-    rw [hm] at hfit' ⊢
-    refine ⟨by simp only; omega, rfl, by simp only; omega, ?_, hfit'⟩
+    rw [hm]
+    refine ⟨by simp only; omega, rfl, by simp only; omega, ?_⟩
     intro l hl
     have a := listMin_le (hmem l hl)
     have b := le_listMax (hmem l hl)
